@@ -105,6 +105,17 @@ fn scripts() -> Vec<(&'static str, String)> {
         ("empty", ""),
         ("comments-only", "# nothing\n\n# here"),
         ("echo", "echo hello world\necho second"),
+        // escapes, quoted and not, and text that reads like shell syntax: the text given to -e is the script
+        ("escape-n-unquoted", "echo a\\nb\necho after"),
+        ("escape-n-quoted", "echo \"a\\nb\"\necho after"),
+        ("escape-t-and-backslash", "echo a\\tb c\\\\nd\necho after"),
+        ("escape-in-assignment", "x = set 1\\n2\necho ${x}"),
+        ("semicolons-and-pipes", "echo a; echo b | c && d\necho after"),
+        ("dollar-paren-and-backticks", "echo $(date) `id` $HOME ~ *\necho after"),
+        ("single-quotes", "echo 'a b' it's\necho after"),
+        ("trailing-blank-lines", "echo a\n\n\n"),
+        ("crlf-lines", "echo a\r\necho b\r\n"),
+        ("leading-dash-text", "echo -e --eval -l\necho after"),
         ("non-ascii-output", "echo é😀 done"),
         ("loop-output", "arr = array a b c\nfor x in ${arr}\necho item ${x}\nend\nrelease ${arr}"),
         ("function-output", "fn f\necho in ${1}\nreturn r\nend\nx = f 1\necho ${x}"),
@@ -743,7 +754,7 @@ pub fn crash_sig(_case: &Value, kind: &str) -> String {
     kind.to_string()
 }
 
-pub const RULE: &str = "57 scripts (succeeding, printing, failing by crash / unknown command / missing label / assert, exit with no value, 0, 3, -1, 255, 256, 257, 512, -256, 65536, i32::MAX, i32::MIN, abc, ' 3', a value beyond i32, every parse error kind, pre-processor print and missing include, output of child processes interleaved with the script's own, exit_on_error at top level, in a function and inside a script-implemented command) x invocation form {file argument, -e text, --eval text}: the duck executable built from /repo's working tree is run as a subprocess and compared with the library run by the harness in a second subprocess (default Env): exit status 0 exactly when the library run succeeds; stdout equals the library's stdout, followed on failure by 'Error: <display of the library error>'. Lint: label x command x output each in {absent, lower-case, Capitalised, mIxed_1, non-ASCII upper-case} x {parsable, with an unparsable later line} x {-l, --lint} (thorough: the line at the end, at the start and in the middle of the file): accepted exactly when the file parses and the three spellings are lower-case, never runs the script, prints 'Error:' on rejection. --version, --help, -h: exit 0 and the documented content. Thorough tier in addition: `exit N` for every N in -600..=600, and every script of 1..4 lines over a pool of 14 lines (printing, assigning, soft error, exit_on_error, failing command, unknown command, exit / exit 2 / exit 256, failed assert, forward goto, unterminated function, unparsable line, pre-processor print) closed by a label line. Scale cases (file form): a loop printing 5000 (thorough 100000) lines, a script file of that many lines, the same failing / not parsing on its last line (output and message must match to the byte). Every subprocess is killed after 20 s (reported as a violation when it is duck that does not exit). Includes: 11 files that include other files by absolute path (once, twice, diamonds, nested twice, broken, self-including) through the three run forms (against the library) and lint (accepted iff everything parses); 4 roots with relative includes started from 3 directories, one of which holds decoy files of the same relative names (run against the library; lint accepted iff the real files parse and are lower case). Named files: scripts (succeeding, failing, unparsable) under 13 bare names that spell options, option letters or words the tool knows (version, help, h, e, eval, l, lint, ...), given alone and with a further argument: run as files, against the library Long files linted: every threshold size of lines up to 8193 (thorough 65537), the one bad line (upper-case output) first, in the middle, last but one, last, a last line that does not parse, or none.";
+pub const RULE: &str = "67 scripts (succeeding, printing, failing by crash / unknown command / missing label / assert, exit with no value, 0, 3, -1, 255, 256, 257, 512, -256, 65536, i32::MAX, i32::MIN, abc, ' 3', a value beyond i32, every parse error kind, pre-processor print and missing include, output of child processes interleaved with the script's own, exit_on_error at top level, in a function and inside a script-implemented command) x invocation form {file argument, -e text, --eval text}: the duck executable built from /repo's working tree is run as a subprocess and compared with the library run by the harness in a second subprocess (default Env): exit status 0 exactly when the library run succeeds; stdout equals the library's stdout, followed on failure by 'Error: <display of the library error>'. Lint: label x command x output each in {absent, lower-case, Capitalised, mIxed_1, non-ASCII upper-case} x {parsable, with an unparsable later line} x {-l, --lint} (thorough: the line at the end, at the start and in the middle of the file): accepted exactly when the file parses and the three spellings are lower-case, never runs the script, prints 'Error:' on rejection. --version, --help, -h: exit 0 and the documented content. Thorough tier in addition: `exit N` for every N in -600..=600, and every script of 1..4 lines over a pool of 14 lines (printing, assigning, soft error, exit_on_error, failing command, unknown command, exit / exit 2 / exit 256, failed assert, forward goto, unterminated function, unparsable line, pre-processor print) closed by a label line. Scale cases (file form): a loop printing 5000 (thorough 100000) lines, a script file of that many lines, the same failing / not parsing on its last line (output and message must match to the byte). Every subprocess is killed after 20 s (reported as a violation when it is duck that does not exit). Includes: 11 files that include other files by absolute path (once, twice, diamonds, nested twice, broken, self-including) through the three run forms (against the library) and lint (accepted iff everything parses); 4 roots with relative includes started from 3 directories, one of which holds decoy files of the same relative names (run against the library; lint accepted iff the real files parse and are lower case). Named files: scripts (succeeding, failing, unparsable) under 13 bare names that spell options, option letters or words the tool knows (version, help, h, e, eval, l, lint, ...), given alone and with a further argument: run as files, against the library Long files linted: every threshold size of lines up to 8193 (thorough 65537), the one bad line (upper-case output) first, in the middle, last but one, last, a last line that does not parse, or none.";
 pub const ASSUMPTIONS: &[&str] = &["scripts with time- or random-dependent output are not in the pool", "the reference is the same library linked into the harness (differential), so a defect shared by both is invisible here"];
 pub const EXHAUSTIVE: bool = true;
 pub const WALL_CAP_S: (u64, u64) = (58, 600);
